@@ -97,6 +97,20 @@ def qpack_literal(headers):
     return bytes(out)
 
 
+def qpack_dynamic(headers, capacity=4096):
+    """Every field goes into the dynamic table and the field section consists of dynamic references only (RFC 9204 4.3.2, 4.5.1, 4.5.2).
+    -> (encoder stream instructions, field section).  The section cannot be decoded before the instructions have arrived."""
+    enc = bytearray(_pint(capacity, 5, 0x20))
+    for n, v in headers:
+        enc += _pint(len(n), 5, 0x40) + n + _pint(len(v), 7, 0x00) + v
+    count = len(headers)
+    max_entries = capacity // 32
+    fs = bytearray(_pint(count % (2 * max_entries) + 1, 8, 0x00) + _pint(0, 7, 0x00))
+    for i in range(count):
+        fs += _pint(count - 1 - i, 6, 0x80)
+    return bytes(enc), bytes(fs)
+
+
 # ---- normal form of a list of H3 events
 
 
